@@ -1,6 +1,7 @@
 #!/usr/bin/env python3
 """Print the detection matrix (markdown) from /verif/seeded/*/meta.json."""
-import glob, json, os
+import glob, json, os, re
+missed = set(re.findall(r"C\d\d-\w+", open("/verif/seeded/INITIALLY_MISSED.txt").read()))
 rows = []
 for d in sorted(glob.glob("/verif/seeded/*")):
     mp = os.path.join(d, "meta.json")
@@ -15,10 +16,11 @@ for d in sorted(glob.glob("/verif/seeded/*")):
             break
     rows.append((os.path.basename(d), (m.get("summary") or "")[:150].replace("|", "/").replace("\n", " "),
                  (m.get("needs_to_manifest") or "")[:140].replace("|", "/").replace("\n", " "),
-                 "yes" if v.get("detected") else "NO", cls))
-print("| id | change | needs | detected | first class reported |")
-print("|---|---|---|---|---|")
+                 "missed" if os.path.basename(d) in missed else "detected", "yes" if v.get("detected") else "NO", cls))
+print("| id | change | needs | first run | now | first class reported |")
+print("|---|---|---|---|---|---|")
 for r in rows:
-    print("| %s | %s | %s | %s | %s |" % r)
+    print("| %s | %s | %s | %s | %s | %s |" % r)
 print()
-print("%d seeded changes, %d detected" % (len(rows), sum(1 for r in rows if r[3] == "yes")))
+print("%d seeded changes, %d detected" % (len(rows), sum(1 for r in rows if r[4] == "yes")))
+print("first run: %d detected, %d missed" % (sum(1 for r in rows if r[3] == "detected"), sum(1 for r in rows if r[3] == "missed")))
